@@ -154,6 +154,66 @@ var __c19 = (function () {
     return prop("", wrapper);
   }
 
+  // ---- JSON.parse with reviver: InternalizeJSONProperty (ECMA-262 §25.5.1.1), on top of the native parse of the text
+  var R_delete = Reflect.deleteProperty;
+  function parseR(text, reviver) {
+    var unfiltered = nativeParse(text);
+    if (typeof reviver !== "function") return unfiltered;        // IsCallable(reviver) is false: nothing else happens
+    var root = {};
+    R_defProp(root, "", { value: unfiltered, writable: true, enumerable: true, configurable: true });
+    function walk(holder, name) {
+      var val = holder[name];
+      if (isObj(val)) {
+        var i, ne;
+        if (A_isArray(val)) {
+          var len = lengthOf(val);
+          for (i = 0; i < len; i++) {
+            var prop = S(i);
+            ne = walk(val, prop);
+            if (ne === undefined) R_delete(val, prop);
+            else R_defProp(val, prop, { value: ne, writable: true, enumerable: true, configurable: true });
+          }
+        } else {
+          var keys = O_keys(val);
+          for (i = 0; i < keys.length; i++) {
+            var P = keys[i];
+            ne = walk(val, P);
+            if (ne === undefined) R_delete(val, P);
+            else R_defProp(val, P, { value: ne, writable: true, enumerable: true, configurable: true });
+          }
+        }
+      }
+      return R_apply(reviver, holder, [name, val]);
+    }
+    return walk(root, "");
+  }
+  // generic structural dump of an arbitrary result (holes, non-data properties, functions …), depth-limited
+  function gdump(v, depth) {
+    if (depth > 12) return "…";
+    var t = typeof v;
+    if (v === null) return "null";
+    if (t === "undefined") return "undef";
+    if (t === "number") return "n" + __bits(v);
+    if (t === "string") return "s" + hexOf(v);
+    if (t === "boolean") return v ? "t" : "f";
+    if (t === "bigint") return "big" + S(v);
+    if (t === "symbol") return "sym";
+    var isA = A_isArray(v), keys = R_ownKeys(v), r = (t === "function" ? "F" : isA ? "A" : "O") + "{";
+    for (var i = 0; i < keys.length; i++) {
+      var k = keys[i];
+      if (typeof k !== "string") { r += "@sym,"; continue; }
+      var d = R_gopd(v, k);
+      if (d === undefined) { r += hexOf(k) + ":ghost,"; continue; }
+      r += hexOf(k) + (d.enumerable ? "" : "~") + (d.configurable ? "" : "!") + (("value" in d) ? (d.writable ? ":" : "=") + gdump(d.value, depth + 1) : ":accessor") + ",";
+    }
+    return r + "}";
+  }
+  function resv(f) {
+    var r;
+    try { r = f(); } catch (e) { return "throw:" + errName(e); }
+    try { return "ok:" + gdump(r, 0); } catch (e2) { return "dumpthrow:" + errName(e2); }
+  }
+
   function plainDesc(d) { return d !== undefined && ("value" in d) && d.writable === true && d.enumerable === true && d.configurable === true; }
   function dump(v, bits) {                             // structural dump of a JSON.parse result
     if (v === null) return "z";
@@ -220,6 +280,7 @@ var __c19 = (function () {
     return cls;
   }
   return {
+    parseR: parseR, resv: resv,
     stringify: stringify, native: nativeStringify, parse: nativeParse, dump: dump, errName: errName, res: res,
     hexOf: hexOf, asciiize: asciiize, gapClass: gapClass,
     defProp: function (o, k, v) { R_defProp(o, k, { value: v, writable: true, enumerable: true, configurable: true }); }
